@@ -116,11 +116,18 @@ func checkC18(p *Program, r *Report) {
 		last := "st.levels[add(-1,len(st.levels))]"
 		okNode := len(got["NodeCnt"]) == 1 && got["NodeCnt"][0] == last+".total"
 		r.Check(okNode, "Stat NodeCnt", p.Pos(stat.Pos()), "total of the last record", fmt.Sprintf("NodeCnt<-%v, want %s.total", got["NodeCnt"], last))
-		okKey := len(got["KeyCnt"]) == 2
-		if okKey {
-			s := append([]string{}, got["KeyCnt"]...)
-			sort.Strings(s)
-			okKey = s[0] == "0" && s[1] == last+".leaf"
+		// KeyCnt is the last record's leaf count; an explicit 0 for the empty trie is optional
+		// (the report is zero-initialised and the empty level table is all zero)
+		okKey := false
+		for _, v := range got["KeyCnt"] {
+			if v == last+".leaf" {
+				okKey = true
+			}
+		}
+		for _, v := range got["KeyCnt"] {
+			if v != last+".leaf" && v != "0" {
+				okKey = false
+			}
 		}
 		r.Check(okKey, "Stat KeyCnt", p.Pos(stat.Pos()), "leaf of the last record, 0 for the empty trie", fmt.Sprintf("KeyCnt<-%v, want 0 and %s.leaf", got["KeyCnt"], last))
 	}
